@@ -274,6 +274,18 @@ func c12One(c *fw.Ctx, cs c12Case) (upgraded bool) {
 		return
 	}
 
+	if verdict == handshake.Unconstrained && why == "hostless" && cs.Raw != "" {
+		// an Origin header that is present but names no host (the opaque origin "null", a
+		// value without scheme, ...) is not "no Origin header" and is not a same-host or
+		// pattern-authorised origin either, unless a pattern matches the empty host
+		matchesEmpty := false
+		for _, p := range cs.Patterns {
+			matchesEmpty = matchesEmpty || handshake.GlobMatch(p, "")
+		}
+		if !matchesEmpty {
+			verdict, why = handshake.MustRefuse, "hostless-origin"
+		}
+	}
 	if cs.Malformed && verdict == handshake.MustAccept && !cs.SkipVerify {
 		verdict, why = handshake.Unconstrained, "malformed-but-pattern-authorised"
 		if !accepted && w.status != http.StatusForbidden {
